@@ -10,6 +10,7 @@ import (
 	"fmt"
 	"reflect"
 	"sort"
+	"strings"
 
 	"google.golang.org/protobuf/types/dynamicpb"
 
@@ -201,6 +202,50 @@ func (w *W) c04NilShapes(t *gcore.Type, id string, c *dynamicpb.Message) {
 		}
 		if !ok {
 			w.fail(t, "C04/hand-built-shape/"+shapeKind(s.name)+"/MarshalTo-differs-from-Marshal", sid, fmt.Sprintf("MarshalTo=%s Marshal=%s", hexs(arena[canary:canary+ysz]), hexs(b)), nil)
+			continue
+		}
+		w.nontr++
+	}
+}
+
+// c05NilShapes (C05): the reference runtime's reading of the generated bytes equals the reference runtime's reading of the
+// struct itself (protoreflect view: a nil list element / nil oneof message reads as an empty message, a typed nil wrapper
+// as an unset oneof) for the hand-built shapes of the case.
+func (w *W) c05NilShapes(t *gcore.Type, id string, c *dynamicpb.Message) {
+	x0, perr := build(t, c)
+	if perr != "" {
+		return
+	}
+	for _, s := range nilShapesOf(x0) {
+		mk := func() any {
+			x, _ := build(t, c)
+			s.apply(reflect.ValueOf(x))
+			return x
+		}
+		sid := id + "/shape:" + s.name
+		if strings.Contains(shapeKind(s.name), "nil-map-value") || strings.Contains(shapeKind(s.name), "map-values-nil") {
+			// a nil message as a map value is not a message value the runtimes agree on (gogo and golang/protobuf 1.3 refuse to
+			// marshal it, protobuf-go writes an empty value, the generated code leaves the entry out): C04 checks that
+			// Size / Marshal / MarshalTo stay consistent for it, C05 has no reference to compare with
+			continue
+		}
+		want, terr := gcore.TreeOf(t, mk())
+		if terr != nil || !initialized(want) {
+			continue
+		}
+		var b []byte
+		var err error
+		if p := guard(func() { b, err = mk().(marshaler).Marshal() }); p != "" || err != nil {
+			continue // C04's business
+		}
+		w.evals++
+		d, derr := refDecode(t, b)
+		if derr != nil {
+			w.fail(t, "C05/hand-built-shape/"+shapeKind(s.name)+"/reference-rejects-generated-bytes", sid, derr.Error(), map[string]any{"bytes": hexs(b)})
+			continue
+		}
+		if df := gcore.Diff(want, d); df != "" || len(d.GetUnknown()) > 0 {
+			w.fail(t, "C05/hand-built-shape/"+shapeKind(s.name)+"/decoded-differs-from-original", sid, df, map[string]any{"bytes": hexs(b), "original": gcore.Describe(want)})
 			continue
 		}
 		w.nontr++
